@@ -1,22 +1,24 @@
 #!/bin/bash
-# tools/try_seed.sh <seed dir> <name> <check> [<check>...]   e.g. tools/try_seed.sh /tmp/seed_C02/seed_out C02-a C02 C03
-# Applies the seeded patch to /repo, runs its demonstration and the given quick checks, and ALWAYS restores /repo.
+# tools/try_seed.sh <seed dir> <name> <check>[:thorough] ...   e.g. tools/try_seed.sh /tmp/seed_C02/seed_out C02-a C02 C03
+# Applies the seeded patch to a SCRATCH worktree of /repo (never to /repo itself), runs its demonstration there and the given
+# checks with VERIF_REPO pointing at the scratch tree, and removes the worktree.
 SRC=$1; NAME=$2; shift 2
 DST=/verif/seeded/$NAME
 mkdir -p $DST && cp $SRC/patch.diff $SRC/demo.py $SRC/meta.json $DST/ 2>/dev/null
-cd /repo || exit 2
-git diff --quiet || { echo "/repo has local changes; refusing"; exit 2; }
-trap 'git -C /repo checkout -- . ' EXIT
-echo "== demo on clean tree"; (cd /repo && PYTHONPATH=/repo timeout 600 /venv/bin/python $DST/demo.py >/tmp/demo_clean.out 2>&1; echo "exit=$?")
-git apply $DST/patch.diff || { echo "patch does not apply"; exit 2; }
-echo "== demo with patch"; (cd /repo && PYTHONPATH=/repo timeout 600 /venv/bin/python $DST/demo.py >/tmp/demo_patched.out 2>&1; echo "exit=$?"; tail -2 /tmp/demo_patched.out | cut -c1-300)
+WT=/tmp/seedtest_$NAME
+git -C /repo worktree remove --force $WT >/dev/null 2>&1
+git -C /repo worktree add -q --detach $WT HEAD || exit 2
+trap 'git -C /repo worktree remove --force '$WT' >/dev/null 2>&1' EXIT
+echo "== demo on clean tree"; (cd $WT && PYTHONPATH=$WT MPLBACKEND=Agg timeout 600 /venv/bin/python $DST/demo.py >/tmp/demo_clean_$NAME.out 2>&1; echo "exit=$?")
+git -C $WT apply $DST/patch.diff || { echo "patch does not apply"; exit 2; }
+echo "== demo with patch"; (cd $WT && PYTHONPATH=$WT MPLBACKEND=Agg timeout 600 /venv/bin/python $DST/demo.py >/tmp/demo_patched_$NAME.out 2>&1; echo "exit=$?"; tail -2 /tmp/demo_patched_$NAME.out | cut -c1-300)
 RES=""
 for c in "$@"; do
   tier=quick; cc=$c
   case $c in *:thorough) tier=thorough; cc=${c%%:*};; esac
-  (cd /verif && ./check $cc $tier > /tmp/seed_check_$cc.out 2>&1); rc=$?
-  echo "== ./check $cc $tier -> exit $rc ; $(grep -c '^VIOLATION' /tmp/seed_check_$cc.out) VIOLATION lines; $(tail -1 /tmp/seed_check_$cc.out | cut -c1-200)"
-  grep -m2 -A1 '^VIOLATION' /tmp/seed_check_$cc.out | cut -c1-400
+  (cd /verif && VERIF_REPO=$WT ./check $cc $tier > /tmp/seed_check_${NAME}_$cc.out 2>&1); rc=$?
+  echo "== ./check $cc $tier -> exit $rc ; $(grep -c '^VIOLATION' /tmp/seed_check_${NAME}_$cc.out) VIOLATION lines; $(tail -1 /tmp/seed_check_${NAME}_$cc.out | cut -c1-200)"
+  grep -m2 -A1 '^VIOLATION' /tmp/seed_check_${NAME}_$cc.out | cut -c1-400
   RES="$RES $cc:$tier=$rc"
 done
 echo "RESULT $NAME:$RES"
